@@ -147,6 +147,13 @@ func (h *c07h) extraJobs(root *rng, tier string, jobs *[]*c07job) {
 		p := p
 		add(func(j *c07job) { h.runP(j, p) })
 	}
+	// stream F: host-declared function types, every position x every kind of function expression
+	for _, pos := range c07fPos {
+		for _, kind := range c07fKind {
+			f := &c07F{Pos: pos, Kind: kind, K: 1 + root.intn(50)}
+			add(func(j *c07job) { h.runF(j, f) })
+		}
+	}
 	nI := 2
 	if tier == "thorough" {
 		nI = 25
